@@ -82,6 +82,7 @@ def run(chk, F):
     chk.guard("decompose", "fast_decompose", lambda: decompose(chk, F))
     chk.guard("merge-closures", "btree_merge callers", lambda: merges(chk, F))
     chk.guard("factor-never-dropped", "NumberPartsFmt::to_spans", lambda: factor_shown(chk, F))
+    chk.guard("irc-rendering", "rink_irc", lambda: irc_rendering(chk, F))
 
 
 def prettify_data(chk, F):
@@ -536,3 +537,38 @@ def factor_shown(chk, F):
     txt = "\n".join(hirpp.tree(then))
     okf = "if let Option::Some(f) = parts.factor" in txt and "if let Option::Some(d) = parts.divfactor" in txt
     chk.decide(okf, "factor-never-dropped", fk, "both-parts-printed", "%s:%d" % (fn.file, first[0]["line"]), "factor and divfactor are both printed when present", "factor/divfactor are not both printed in the raw_unit branch")
+
+
+def irc_rendering(chk, F):
+    """The IRC front-end writes the same spans with mIRC control codes.  (a) ^C (0x03) followed by one or two digits is a colour
+    code, so a colour must never be *ended* with a bare ^C: the text that follows may start with digits - `Conformance error: `
+    is followed by the left-hand number, and `123 m -> s` was shown as `3 meter`.  Every literal of the formatter that contains
+    0x03 must carry its two colour digits.  (b) an IRC message ends at the first line end, so what is handed to
+    send_notice/send_privmsg must have had its line ends replaced: the conformance error keeps its suggestions after a `\n`."""
+    fns = [f for f in F.by_crate.get("rink_irc", []) if f.path.endswith("fmt::write_irc_token")]
+    if len(fns) != 1:
+        raise AnchorLost("rink_irc::fmt::write_irc_token not found")
+    fn = fns[0]
+    lits = [n["lit"]["v"] for n in hir_walk(F.hir_of(fn)["body"]) if n.get("k") == "Lit" and n["lit"].get("lit") == "str"]
+    import re
+    cc = [v for v in lits if "\x03" in v]
+    bad = [v for v in cc if re.search("\x03(?![0-9]{2})", v)]
+    if len(lits) < 10:
+        raise AnchorLost("write_irc_token: only %d string literals found" % len(lits))
+    chk.decide(not bad, "irc-rendering", "rink_irc::fmt::write_irc_token", "no-bare-colour-terminator", fn.where(),
+               "every ^C in the formatter's literals carries its two colour digits (%d colour literals); colours are ended with a reset" % len(cc),
+               "a colour is ended with a bare ^C (%r): digits that follow are swallowed as a colour code, `123 m -> s` shows `Conformance error: 3 meter`" % bad)
+    # (b) line ends
+    sends = []
+    for f in F.by_crate.get("rink_irc", []):
+        for bb, t in f.calls():
+            if "callee" in t and t["callee"]["path"].split("::")[-1] in ("send_notice", "send_privmsg") and len(t["args"]) >= 3:
+                sends.append((f, bb, ap_str(f.apath(t["args"][2]))))
+    if not sends:
+        raise AnchorLost("rink_irc: no send_notice/send_privmsg call found")
+    for f, bb, src in sends:
+        ok = "to_irc_string" not in src or "str>::replace" in src or "::replace(" in src or "lines(" in src or "split(" in src
+        chk.decide(ok, "irc-rendering", "rink_irc::" + f.path, "one-line-per-message", f.where(bb),
+                   "the reply text has its line ends removed (or is split) before it is sent",
+                   "the reply is sent as rendered (%s): the IRC codec cuts a message at the first line end, `1 m -> s` loses "
+                   "\"Suggestions: divide left side by velocity\" and `1 Hz -> s` loses the reciprocal hint" % src[:80])
